@@ -137,6 +137,7 @@ func (x *codecExplorer) tailFamily(m *bind.Msg) {
 				targets = append(append([]int{}, small...), big...)
 			}
 			for _, T := range targets {
+				x.c.Tick()
 				tail := tailBuild(m, i, T)
 				if tail == nil {
 					continue
@@ -570,7 +571,10 @@ func (x *codecExplorer) contentFamily(m *bind.Msg) {
 		if !x.c.Begin("contentsweep", m.Name, map[string]any{"msg": m.Name, "slot": s.Name}) {
 			continue
 		}
-		for _, raw := range corpus {
+		for ci, raw := range corpus {
+			if ci%32 == 0 {
+				x.c.Tick()
+			}
 			b := []byte(raw)
 			if len(b) > s.Max {
 				b = b[:s.Max]
@@ -717,6 +721,7 @@ func (x *codecExplorer) relationFamily(m *bind.Msg) {
 			}
 			sb := &m.Slots[b]
 			for _, l := range bases {
+				x.c.Tick()
 				for _, rel := range [][2]int{{l, l}, {l, 2 * l}, {l, l + 1}} {
 					la, lb := rel[0], rel[1]
 					if la < sa.Min || la > sa.Max || lb < sb.Min || lb > sb.Max {
